@@ -100,4 +100,22 @@ PLAN = {
         "trusted_base": BASE_TRUST,
         "assumptions": BASE_ASSUME + ["the torn-tape model (Model/Cut.lean) is the tar-reader contract R1-R4; it is validated against the real archive/tar on real bytes (every byte offset of small tapes in the thorough tier), not proved", "termination of the real resynchronisation loop is observed under a watchdog on every cut, not proved (the model is a total function)"],
     },
+    "C02": {
+        "streams": {
+            "quick": [fs(240, 18, "C02"), fs(100, 16, "C02", wild=True)],
+            "thorough": [fs(4000, 22, "C02", rs="20,1,3,7,64", timeout=6000), fs(2000, 20, "C02", wild=True, timeout=6000)],
+        },
+        "generated": ["Stfs/Gen/Guards.lean", "Stfs/Gen/Consts.lean"],
+        "trusted_base": BASE_TRUST,
+        "assumptions": BASE_ASSUME + ["the reference filesystem Stfs/Spec/RefFs.lean is the specification (POSIX/afero rules; handles buffer until Sync/Close; no clock-driven timestamp updates on write)"],
+    },
+    "C16": {
+        "streams": {
+            "quick": [fs(90, 24, "C16", mode="open16", timeout=2400)],
+            "thorough": [fs(1500, 28, "C16", mode="open16", rs="20,1,3,7", timeout=7000)],
+        },
+        "generated": ["Stfs/Gen/OpenFlags.lean", "Stfs/Gen/PosArith.lean"],
+        "trusted_base": BASE_TRUST,
+        "assumptions": BASE_ASSUME + ["what opening over a torn tail does is predicted by the driver from the tar-reader contract (Model/Cut.lean); writes after a torn, unaligned tail are outside the model (finding F19)"],
+    },
 }
